@@ -93,8 +93,11 @@ def run(ctx):
                 rules = roots.get(term, [])
                 if any(g and not c for g, c, _ in rules):
                     ctx.ob("C29.R3", "grammar:%s" % arch, "%s has an unconditional general rule in %s" % (term, arch), True, construct="cell:%s:%s" % (arch, term))
+                elif any(g for g, c, _ in rules):
+                    ctx.undecided("C29.R3", "grammar:%s" % arch, "%s is covered only by conditional rules" % term)
                 elif rules:
-                    ctx.undecided("C29.R3", "grammar:%s" % arch, "%s is covered only by conditional or operand-specific rules" % term)
+                    ctx.ob("C29.R3", "grammar:%s" % arch, "%s has a general rule (all operands non-terminals) in %s, not only operand-specific ones" % (term, arch), False, construct="cell:%s:%s" % (arch, term),
+                           detail="only %s" % [r[2]["tree"] for r in rules][:3])
                 else:
                     ctx.ob("C29.R3", "grammar:%s" % arch, "%s has a rule in %s (type %s has REG/LDR/STR rules, so values of this type reach the selector)" % (term, arch, t), False, construct="cell:%s:%s" % (arch, term),
                            detail="no pattern with root %s" % term)
